@@ -33,6 +33,7 @@ type State struct {
 	PC     []*smt.Term
 	Model  []uint64 // an assignment satisfying PC, nil if not known
 	Steps  int
+	UnknownSince int
 	Depth  int // nesting depth of fork regions (statistics)
 }
 
@@ -50,7 +51,7 @@ func (f *Frame) clone() *Frame {
 }
 
 func (s *State) clone() *State {
-	n := &State{W: s.W, Steps: s.Steps, Depth: s.Depth}
+	n := &State{W: s.W, Steps: s.Steps, Depth: s.Depth, UnknownSince: s.UnknownSince}
 	n.Frames = make([]*Frame, len(s.Frames))
 	for i, f := range s.Frames {
 		n.Frames[i] = f.clone()
@@ -179,7 +180,7 @@ func (s *State) bytesOf(sl Slice) Str {
 	for i, e := range el {
 		b[i] = e.(*smt.Term)
 	}
-	return Str{b}
+	return Str{B: b}
 }
 
 // newByteSlice allocates a fresh []byte holding the bytes of str.
@@ -234,7 +235,7 @@ func (m *merger) val(a, b Value) Value {
 		return m.ctx.Ite(m.g, a, b)
 	case Str:
 		b, ok := b.(Str)
-		if !ok || len(a.B) != len(b.B) {
+		if !ok || len(a.B) != len(b.B) || a.R != b.R {
 			break
 		}
 		if len(a.B) == 0 || &a.B[0] == &b.B[0] {
@@ -258,7 +259,7 @@ func (m *merger) val(a, b Value) Value {
 		if out == nil {
 			return a
 		}
-		return Str{out}
+		return Str{B: out, R: a.R}
 	case Slice:
 		b, ok := b.(Slice)
 		if ok && a.Obj == b.Obj && a.Off == b.Off && a.Len == b.Len && a.Cap == b.Cap && pathEq(a.Path, b.Path) {
